@@ -168,6 +168,35 @@ def malformed(p, rng):
     return q, kind
 
 
+def drop_repeated_listings(p):
+    """the same project with every repeated listing of a lazefile removed (first listing in load order kept): each lazefile is loaded
+    once, so the repeated listing must mean nothing"""
+    import os
+    q = copy.deepcopy(p)
+    seen, changed = set(), False
+    order = ["laze-project.yml"] + [f for f in q["files"] if f != "laze-project.yml"]
+    for path in order:
+        base = os.path.dirname(path)
+        for doc in q["files"][path]:
+            for key, suffix in (("subdirs", "/laze.yml"), ("includes", "")):
+                if not isinstance(doc.get(key), list):
+                    continue
+                keep = []
+                for x in doc[key]:
+                    tgt = os.path.normpath(os.path.join(base, x + suffix))
+                    if tgt in seen:
+                        changed = True
+                        continue
+                    seen.add(tgt)
+                    keep.append(x)
+                if keep:
+                    doc[key] = keep
+                else:
+                    del doc[key]
+    q["files"] = {f: [d for d in docs] for f, docs in q["files"].items()}
+    return q if changed else None
+
+
 def fp(r):
     return (projrun.impl_status(r), r["ninja"],
             sorted((b["builder"], b["app"], b["decision"], tuple(x["name"] for x in b.get("modules", []))) for b in r.get("dump", [])))
@@ -180,6 +209,8 @@ def meta_job(job):
         q = inline_defaults(p)
     elif kind == "ctxlist":
         q = split_context_lists(p)
+    elif kind == "once":
+        q = drop_repeated_listings(p)
     else:
         q, what = malformed(p, rng)
         if q is None:
@@ -204,13 +235,15 @@ def run(chk):
     n = 600 if chk.tier == "quick" else 6000
     chk.rule = ("random project trees (nested subdirs, multi-document files, defaults at several levels, context lists, includes, '-name' removals); "
                 "(1) the loader+generator model vs the real CLI on dumps and ninja file; (2) metamorphic on the implementation: project vs its "
-                "manually inlined defaults, project vs context lists written once per context: identical ninja file and module lists; (3) duplicate "
+                "manually inlined defaults, project vs context lists written once per context, project listing a lazefile twice (two documents, one list, "
+                "another file) vs the repeated listing removed: identical ninja file and module lists; (3) duplicate "
                 "context names, duplicate module names in a context, unknown contexts and unknown parents must be rejected with exit status 1; "
                 "non-trivial = defaults or a context list actually change a loaded module and the project is accepted; distinct by project hash")
     projcheck.campaign(chk, PROF, n, OBS, None, loaded_changed)
     k = 150 if chk.tier == "quick" else 1500
     jobs = [("inline", projgen.gen_project(chk.seed + 1700, i, PROF_INLINE), i) for i in range(4 * k)]
     jobs += [("ctxlist", projgen.gen_project(chk.seed + 1750, i, PROF), i) for i in range(k)]
+    jobs += [("once", projgen.gen_project(chk.seed + 1770, i, projgen.profile(p_dup_listing=1.0, p_subdir=0.6, p_include=0.4)), i) for i in range(k)]
     jobs += [("reject", projgen.gen_project(chk.seed + 1790, i, projgen.DEFAULT_PROFILE), chk.seed * 17 + i) for i in range(k // 2)]
     pairs = [("corpus:" + c["signature"], c["project"], c["expanded"]) for c in common.load_corpus("C17") if c.get("pair")]
     for sig, p, q in pairs:
